@@ -115,6 +115,9 @@ MEAS = {
     "var m0, expval Y1": lambda ms: [qp.var(ms[0]), qp.expval(qp.PauliY(1))],
     "mcm arithmetic / joint probs": lambda ms: ([qp.expval(2 * ms[0] - ms[1]), qp.probs(op=[ms[0], ms[1]]), qp.var(ms[0] + ms[1])] if len(ms) > 1 else [qp.expval(3 * ms[0] + 1), qp.probs(wires=[0, 1])]),
 }
+MEAS["two variances: var Z0, var X1"] = lambda ms: [qp.var(qp.PauliZ(0)), qp.var(qp.PauliX(1))]
+MEAS["var m0, var Z1, expval Z0"] = lambda ms: [qp.var(ms[0]), qp.var(qp.PauliZ(1)), qp.expval(qp.PauliZ(0))]
+MEAS["probs over an extra idle wire, expval Z(idle)"] = lambda ms: [qp.probs(wires=[0, 1, 3]), qp.expval(qp.PauliZ(3))]
 METHODS = ["deferred", "tree-traversal"]
 
 
